@@ -106,6 +106,35 @@ def _run_chunk(args):
     return out
 
 
+def _isolated_child(conn, modname, cname, inputs):
+    for inp in inputs:
+        (r,) = _run_chunk((modname, cname, [inp]))
+        conn.send(r)
+    conn.close()
+
+
+def _run_isolated(modname, cname, inputs):
+    import multiprocessing as mp
+    parent, child = mp.Pipe(duplex=False)
+    p = mp.Process(target=_isolated_child, args=(child, modname, cname, inputs))
+    p.start()
+    child.close()
+    results = []
+    try:
+        while len(results) < len(inputs):
+            if parent.poll(120):
+                results.append(parent.recv())
+            else:
+                break
+    except (EOFError, OSError):
+        pass
+    p.join(5)
+    if p.is_alive():
+        p.kill()
+    crashed_at = len(results) if len(results) < len(inputs) else None
+    return results, crashed_at
+
+
 def run_bcheck(modname, chk, tier, seed, deadline):
     rng = random.Random("%s/%s/%d" % (chk.name, tier, seed))
     t0 = time.time()
@@ -143,18 +172,44 @@ def run_bcheck(modname, chk, tier, seed, deadline):
                 failures.append((inp, r))
 
     if chk.parallel:
-        with ProcessPoolExecutor(max_workers=min(16, os.cpu_count() or 4)) as ex:
+        lost = []   # batches whose worker process died (segfault / abort inside the code under check)
+        ex = ProcessPoolExecutor(max_workers=min(16, os.cpu_count() or 4))
+        try:
             pending = []
-            for batch in batches():
-                pending.append((batch, ex.submit(_run_chunk, (modname, chk.name, batch))))
-                while len(pending) >= 32:
-                    b, fut = pending.pop(0)
+
+            def collect(b, fut):
+                try:
                     account(b, fut.result())
-                if time.time() > stop_at:
+                except Exception:
+                    lost.append(b)
+            for batch in batches():
+                try:
+                    pending.append((batch, ex.submit(_run_chunk, (modname, chk.name, batch))))
+                except Exception:   # pool already broken
+                    lost.append(batch)
+                    ex.shutdown(wait=False, cancel_futures=True)
+                    ex = ProcessPoolExecutor(max_workers=min(16, os.cpu_count() or 4))
+                while len(pending) >= 32:
+                    collect(*pending.pop(0))
+                if time.time() > stop_at or len(lost) > 40:
                     truncated = True
                     break
             for b, fut in pending:
-                account(b, fut.result())
+                collect(b, fut)
+        finally:
+            ex.shutdown(wait=False, cancel_futures=True)
+        # isolate the crashing inputs: re-run lost batches one input at a time in a child that reports progress
+        crashes = 0
+        for b in lost:
+            if crashes >= MAX_REPORTED:
+                break
+            results, crashed_at = _run_isolated(modname, chk.name, b)
+            account(b[:len(results)], results)
+            if crashed_at is not None:
+                crashes += 1
+                evaluations += 1
+                failures.append((b[crashed_at], dict(expected="no crash", observed="the process running the code under check died "
+                                                     "(signal/abort, e.g. segfault or failed C++ assert) on this input")))
     else:
         chk.prepare()
         for batch in batches():
